@@ -35,11 +35,7 @@ func (w *wireRoute) name() string { return "binary-protocol" }
 
 func (w *wireRoute) literal(v val) string { return v.wireLit() }
 
-// canBind: a []byte argument reaches the server as a character-string parameter (the client
-// has no other way to send bytes); where the literal X'..' is compared with / stored into the
-// VARBINARY column, or its bytes are taken by HEX / LENGTH, that is the same value, elsewhere
-// (COALESCE(bn, ?), a bare select item) the string type of the parameter legitimately shows.
-func (w *wireRoute) canBind(p pos) bool { return p.c != cBin || p.direct }
+func (w *wireRoute) canBind(p pos) bool { return binBindable(p) }
 
 func (w *wireRoute) close() {
 	if w.stmt != nil {
